@@ -461,8 +461,10 @@ def build_secp(job):
         pool = [g, o]
         for n in ns:
             pool.append(prod("mul", lambda: s.multiply(regs[g - 1], n), a=g, n=n))
-        for d in (1, 2, N - 1, rng.randrange(1, N)):
+        for d in (1, 2, N - 1, rng.randrange(1, N), N, N + 1, P - 1, P, P + 3, 2 ** 256 - 1, 2 ** 255):
             pool.append(prod("mul", lambda: s.privtopub(d.to_bytes(32, "big")), a=g, n=d))      # privtopub(d) = d G
+        for d in (2 ** 256 + 5, rng.getrandbits(300) | 1 << 299):                                 # longer key strings
+            pool.append(prod("mul", lambda: s.privtopub(d.to_bytes(40, "big")), a=g, n=d))
         pairs = [(g, g), (g, o), (o, g), (o, o), (pool[3], pool[6]), (pool[6], pool[3])] + \
             [(rng.choice(pool), rng.choice(pool)) for _ in range(10 if quick else 60)]
         for (a, b) in pairs:
